@@ -115,7 +115,7 @@ class SRec(Sym):
 class SSeq(Sym):
     """Immutable sequence of symbolic length. `item(k)` gives the value at a (concrete or
     symbolic) index lazily; `n` is a z3 Int >= 0."""
-    __slots__ = ("n", "name", "mk", "_cache", "item_desc", "ctx", "_idx")
+    __slots__ = ("n", "name", "mk", "_cache", "item_desc", "ctx", "_idx", "base_records")
 
     def __init__(self, n, name, mk):
         self.n = n
@@ -125,6 +125,7 @@ class SSeq(Sym):
         self.item_desc = None
         self.ctx = None        # when set, items at provably-equal indices are tied together
         self._idx = {}
+        self.base_records = None
 
     def item(self, k):
         key = k if isinstance(k, int) else str(k)
@@ -735,6 +736,18 @@ def equalise(ctx, a, b):
         if guard > 400:
             raise Undecided("equalise did not converge")
         x, y = a[0], b[0]
+        # an item run over a provably empty sequence contributes nothing
+        dropped = False
+        for side in (a, b):
+            h = side[0]
+            if isinstance(h, Enc) and h.codec[0] == "run":
+                sq = h.args[0]
+                nn = sq.n if isinstance(sq, SSeq) else len(sq)
+                if (isinstance(nn, int) and nn == 0) or (not isinstance(nn, int) and ctx.entails(nn == 0)):
+                    side.pop(0)
+                    dropped = True
+        if dropped:
+            continue
         if isinstance(x, Lit) and isinstance(y, Lit):
             n = min(len(x.b), len(y.b))
             if x.b[:n] != y.b[:n]:
